@@ -10,6 +10,7 @@ import (
 	"fmt"
 	"io"
 	"log"
+	"math"
 	"net"
 	"os"
 	"slices"
@@ -362,6 +363,10 @@ func (s *Service) checkCommandPermAll(c *proto.Command, perms ...string) bool {
 	return true
 }
 
+// maxCommandSize is the largest command accepted from the network. Protobuf
+// cannot encode a message larger than 2GiB.
+const maxCommandSize = math.MaxInt32
+
 func (s *Service) handleConn(conn net.Conn) {
 	defer conn.Close()
 
@@ -377,17 +382,23 @@ func (s *Service) handleConn(conn net.Conn) {
 			return
 		}
 		sz := binary.LittleEndian.Uint64(b[0:])
+		if sz > maxCommandSize {
+			// Not a request from a rqlite node, a protobuf message cannot be this large.
+			return
+		}
 
-		p := make([]byte, sz)
 		if s.connTimeout > 0 {
 			if err := conn.SetReadDeadline(time.Now().Add(s.connTimeout)); err != nil {
 				return
 			}
 		}
-		_, err = io.ReadFull(conn, p)
-		if err != nil {
+		// Let the buffer grow with the bytes actually received, rather than
+		// allocating whatever the length prefix claims.
+		var pbuf bytes.Buffer
+		if _, err = io.CopyN(&pbuf, conn, int64(sz)); err != nil {
 			return
 		}
+		p := pbuf.Bytes()
 
 		c := &proto.Command{}
 		err = pb.Unmarshal(p, c)
